@@ -39,7 +39,7 @@ func runInBubble(t *testing.T, sc *Scenario) (h *History, dirty bool) {
 		}
 	}
 	synctest.Test(t, func(t *testing.T) {
-		if sc.Prop == "C07" || sc.Prop == "C08" {
+		if (sc.Prop == "C07" || sc.Prop == "C08") && !sc.Cfg.WholeSystem {
 			h = RunDiam(sc)
 		} else {
 			h = Run(sc)
@@ -139,7 +139,9 @@ func TestWorker(t *testing.T) {
 		count := envInt("VERIF_COUNT", 1)
 		samples := envInt("VERIF_SAMPLES", 0)
 		deadline := time.Now().Add(time.Duration(envInt("VERIF_WALL_S", 3600)) * time.Second)
-		for i := from; i < from+count; i++ {
+		stride := envInt("VERIF_STRIDE", 1)
+		for k := int64(0); k < count; k++ {
+			i := from + k*stride
 			if time.Now().After(deadline) {
 				emit(map[string]interface{}{"stopped_at": i, "reason": "wall budget"})
 				break
